@@ -5,7 +5,8 @@ Ops (grammar in lean/BiotiteModel/Driver/C09.lean); `<head>` =
     <kind b|g|u> <mode s|l> <gap> <a> <b> <k2> <matrix> <band lo:hi|-> <seed i:j|-> <thr|-> <dir b|u|d> <max> <mts|->
   run <head>                    -> ok <score> | ERR:<Exc>       score of the heuristic (model: bandedFill / regionAlign / xdropExtend)
   so  <head>                    -> ok <score> | ERR:<Exc>       the score_only=True call (gapped / ungapped)
-  chk <head> <score> <traces>   -> ok n=<n> sound=<k>           the verified checker `checkResult` on EVERY returned trace
+  chk <head> <score> <traces>   -> ok n=<n> sound=<k> abutfree=<c>   the verified checker `checkResult` on EVERY returned trace;
+                                   c = affine semi-global traces whose completion abuts a free terminal gap (class affAbutFree)
 
 The `chk` line carries the ACTUAL output of the heuristic: `run_impl` rewrites it in place before the runner hands
 the ops to the Lean driver (same device as C08).
@@ -41,12 +42,18 @@ ASSUMPTIONS = ["NoOverflow: every table entry fits int32 (|matrix|,|gap| <= 6, t
                "the pseudo -inf of the banded tables and the 0 = invalid convention of the X-drop tables are modelled as `none`"]
 TECHNIQUE = ("Lean 4: verified checker run on every actual output (soundness by induction over alignment columns, upper bound "
              "from the C08 optimality theorems) + proofs on executable models of the band fill / X-drop extension + correspondence")
-LEVEL_TEXT = ("theorems: checker soundness (valid, honest rescoring incl. completion by unaligned ends, band containment, seed "
-              "and direction), never-above-optimum for linear penalties (from C08_upper_semi/local), full band = semi-global "
-              "optimum (up to the pair-free alignment) and non-binding threshold = best prefix for the ungapped extension, "
-              "score_only = full score on the models.  PARTIAL: 'reaches the optimum when the drop-off cannot bind' for the "
-              "gapped X-drop, the table-growth logic and all affine optimality statements are tied by the correspondence and by "
-              "the enumeration / align_optimal oracle only")
+LEVEL_TEXT = ("theorems: checker soundness for linear AND affine penalties (valid, honest rescoring incl. completion by the "
+              "unaligned ends, band containment, seed and direction, no abutting gaps, reported score <= the optimum of the class "
+              "the output belongs to: opt (linear), optAff over non-abutting alignments (affine; C08's class, free terminal gaps "
+              "count), or - affine semi-global outputs whose completion abuts a free terminal gap, which the checker reports as "
+              "class affAbutFree - the linear semi-global optimum for max(open, ext), a proved bound on the abutting-allowed "
+              "optimum); never-above-optimum for every valid trace in each class (from C08_upper_*); banded model: <= semi-global "
+              "optimum for every band and = it for a full band (up to the pair-free alignment); ungapped extension = best prefix "
+              "and gapped X-drop region (linear) = maximum over all prefix pairs of the global optimum when the threshold cannot "
+              "bind (explicit slack 2(n+m)c); score_only = full score on the models.  PARTIAL: the gapped X-drop with AFFINE "
+              "penalties, the table-growth / max_table_size logic and the pruning under binding thresholds are tied by the "
+              "correspondence and the oracle only; the exact abutting-allowed affine optimum (class affAbutFree) and 'full band "
+              "reaches the optimum' for affine penalties are checked per output by the enumeration / recursion oracle only")
 LEVEL_NOTE = ("trusted: Lean kernel, line-protocol driver, generators; int32 = Z under NoOverflow; the banded model works in "
               "classic table coordinates (the straightening j_s = j - i - lower + 1 is an index bijection)")
 
@@ -255,7 +262,14 @@ def run_impl(case):
         # (the checker rejects those: their score is not the score of the returned trace)
         k = sum(1 for _, t in res
                 if not (neg_inf_underflow(c, sc) or leading_gap_artifact(c, [(int(i), int(j)) for i, j in t], sc)))
-        out.append(f"ok n={len(res)} sound={k}")
+        n_, m_ = len(c["a"]), len(c["b"])
+        ab = 0
+        if c["kind"] == "banded" and not c.get("local") and len(c["gap"]) == 2:
+            for _, t in res:
+                rows = [(int(i), int(j)) for i, j in t]
+                if not check_trace(rows, n_, m_) and not no_abut(complete(rows, n_, m_)):
+                    ab += 1
+        out.append(f"ok n={len(res)} sound={k} abutfree={ab}")
     else:
         out.append(out[0])
     return out
@@ -310,6 +324,14 @@ def complete(rows, n, m):
     j1 = jb[-1] + 1 if jb else 0
     return ([(i, -1) for i in range(i0)] + [(-1, j) for j in range(j0)] + list(rows)
             + [(i, -1) for i in range(i1, n)] + [(-1, j) for j in range(j1, m)])
+
+
+def no_abut(rows):
+    """no gap in one sequence directly next to a gap in the other"""
+    for (i1, j1), (i2, j2) in zip(rows, rows[1:]):
+        if (i1 < 0 <= j1 and j2 < 0 <= i2) or (j1 < 0 <= i1 and i2 < 0 <= j2):
+            return False
+    return True
 
 
 def rec_opt(mode, a, b, Mx, gap, need_pair=False, relaxed=False):
@@ -508,13 +530,31 @@ def oracle(case):
             # ungapped results are local alignments under every gap penalty: compare with the strictest one that
             # is still a local optimum, and with a mild one
             best = min(best, rec_opt("l", a, b, Mx, [-1]))
-        if sc > best:
-            v.append((tag + "/above-optimum", f"reported {sc} > optimum {best} of the unrestricted problem; {_brief(c)}"))
-        # align_optimal as reference (not for semi-global + affine: it never lets an interior gap run end at a free
-        # sequence end, so align_banded legitimately finds higher-scoring valid alignments there; see notes/C09.md)
-        ref = None if semi_aff else _align_optimal_score(c, mode, ug if k != "ungapped" else [-1])
-        if ref is not None and sc > ref:
-            v.append((tag + "/above-align_optimal", f"reported {sc} > align_optimal {ref}; {_brief(c)}"))
+        if semi_aff:
+            # two classes (adjudicated with C08): a result whose completed alignment has no abutting gaps (free
+            # terminal gaps count) is bounded by C08's optimum = align_optimal; one that abuts a free terminal gap is
+            # outside that class and is bounded by the abutting-allowed optimum (exact, by this recursion)
+            strict = rec_opt("s", a, b, Mx, gap)
+            ref = _align_optimal_score(c, "s", gap)
+            for _, t in res:
+                rows = [(int(i), int(j)) for i, j in t]
+                if check_trace(rows, n, m) or leading_gap_artifact(c, rows, sc):
+                    continue        # invalid / known-finding traces are reported by the rescoring clause
+                if no_abut(complete(rows, n, m)):
+                    if sc > strict:
+                        v.append((tag + "/above-optimum", f"reported {sc} > optimum {strict} over non-abutting alignments although the "
+                                  f"completed trace {rows} has no abutting gaps; {_brief(c)}"))
+                    if ref is not None and sc > ref:
+                        v.append((tag + "/above-align_optimal", f"reported {sc} > align_optimal {ref}, completed trace {rows} has no "
+                                  f"abutting gaps; {_brief(c)}"))
+                elif sc > best:
+                    v.append((tag + "/above-optimum", f"reported {sc} > abutting-allowed optimum {best}; trace {rows}; {_brief(c)}"))
+        else:
+            if sc > best:
+                v.append((tag + "/above-optimum", f"reported {sc} > optimum {best} of the unrestricted problem; {_brief(c)}"))
+            ref = _align_optimal_score(c, mode, ug if k != "ungapped" else [-1])
+            if ref is not None and sc > ref:
+                v.append((tag + "/above-align_optimal", f"reported {sc} > align_optimal {ref}; {_brief(c)}"))
         # reaches the optimum
         if k == "banded" and min(c["band"]) <= -(n - 1) and max(c["band"]) >= m - 1 and n and m:
             if local:
@@ -954,6 +994,9 @@ def corpus():
     add(kind="banded", a=[0, 1, 0], b=[1, 0, 1, 1], M=I2, gap=[-1, 0], local=False, band=[-1, 2])
     add(kind="banded", a=[0, 1, 0, 1], b=[0, 1, 1, 0, 1], M=I2, gap=[-1, -5], local=False, band=[-1, 1])
     add(kind="banded", a=[0, 1, 0, 1], b=[0, 1, 1, 0, 1], M=I2, gap=[-2, -1], local=True, band=[-1, 1])
+    # affine semi-global results whose completion abuts a free terminal gap (class affAbutFree; align_optimal gives 0 / 1)
+    add(kind="banded", a=[1, 2, 2], b=[1, 0, 1, 0, 0], M=[[4, -3], [-3, 4], [-3, -3]], gap=[-1, -1], local=False, band=[-1, 6])
+    add(kind="banded", a=[1, 2], b=[1, 0], M=[[4, -3], [-3, 4], [-3, -3]], gap=[-1, -1], local=False, band=[-2, 2])
     # seeded: borders, directions, thresholds
     for d in ("both", "upstream", "downstream"):
         for seed in ([0, 0], [3, 2], [1, 3], [0, 3], [3, 0]):
@@ -979,7 +1022,7 @@ def signature(case):
 
 def distribution(cases, impl_outs):
     d = {"kind": {}, "gap": {}, "band": {}, "seed": {}, "threshold": {}, "dir": {}, "len": {}, "errors": {}, "n_traces": {},
-         "widths": {}}
+         "widths": {}, "opt_class": {}}
 
     def inc(k, x):
         d[k][x] = d[k].get(x, 0) + 1
@@ -1003,10 +1046,14 @@ def distribution(cases, impl_outs):
         if o:
             if o[0].startswith("ERR") or o[0] == "CRASH":
                 inc("errors", o[0])
-            mm = re.match(r"ok n=(\d+)", o[-1])
+            mm = re.match(r"ok n=(\d+) sound=(\d+) abutfree=(\d+)", o[-1])
             if mm:
                 k = int(mm.group(1))
                 inc("n_traces", "1" if k == 1 else "2-5" if k <= 5 else "6+")
+                if c["kind"] == "banded" and not c.get("local") and len(c["gap"]) == 2:
+                    inc("opt_class", "affAbutFree" if int(mm.group(3)) else "affNoAbut")
+                if int(mm.group(2)) < k:
+                    inc("opt_class", "rejected(known finding)")
     return d
 
 
